@@ -42,6 +42,7 @@ type contextStackEntry struct {
 	CurrentObjectCount  int
 	ExpectedObjectCount int // -1 means ignored
 	Keys                map[interface{}]bool
+	MarkerID            string // only set in marked object entries
 }
 
 type Context struct {
@@ -326,11 +327,13 @@ func (_this *Context) BeginNode() {
 func (_this *Context) BeginMarkerKeyable(id []byte, dataType DataType) {
 	_this.markerID = string(id)
 	_this.stackRule(&markedObjectKeyableRule, dataType, noObjectCount)
+	_this.CurrentEntry.MarkerID = _this.markerID
 }
 
 func (_this *Context) BeginMarkerAnyType(id []byte, dataType DataType) {
 	_this.markerID = string(id)
 	_this.stackRule(&markedObjectAnyTypeRule, dataType, noObjectCount)
+	_this.CurrentEntry.MarkerID = _this.markerID
 }
 
 func (_this *Context) LocalReferenceKeyable(identifier []byte) {
